@@ -103,6 +103,15 @@ ParseDecimal(bs) ==
 
 Latin1(bs) == bs           \* latin-1: byte k is code point k
 
+\* IEEE-754 double, big-endian: exponent all ones and a non-zero mantissa
+IsNaNBytes(b) == Len(b) = 8 /\ b[1] % 128 = 127 /\ b[2] >= 240 /\ (b[2] % 16 # 0 \/ \E i \in 3..8 : b[i] # 0)
+RECURSIVE ContainsNaN(_)
+ContainsNaN(v) ==
+  CASE Tag(v) = "float" -> IsNaNBytes(v[2])
+    [] Tag(v) = "complex" -> IsNaNBytes(SubSeq(v[2], 1, 8)) \/ IsNaNBytes(SubSeq(v[2], 9, 16))
+    [] Tag(v) \in {"tuple", "frozenset"} -> \E i \in 1..Len(v[2]) : ContainsNaN(v[2][i])
+    [] OTHER -> FALSE
+
 StepOp(st, cfg) ==
   LET inp == st.inp IN
   IF inp = <<>> THEN Fail(st, "eof")
@@ -160,7 +169,8 @@ StepOp(st, cfg) ==
                  ELSE Fail(st, "loaderr")
               ELSE IF Tag(c) = "dict" THEN
                  IF ~Hashable(key) THEN Fail(st, "loaderr")
-                 ELSE LET pos == {i \in 1..Len(c[2]) : Tag(c[2][i][1]) = Tag(key) /\ c[2][i][1] = key} IN
+                 \* an equal key is replaced; a key that holds a NaN equals nothing, not even its own re-decoded copy (Python: nan != nan)
+                 ELSE LET pos == {i \in 1..Len(c[2]) : Tag(c[2][i][1]) = Tag(key) /\ c[2][i][1] = key /\ ~ContainsNaN(key)} IN
                       [st EXCEPT !.inp = r,
                           !.stack = Append(SubSeq(stack, 1, n - 3),
                               <<"dict", IF pos = {} THEN Append(c[2], <<key, val>>)
